@@ -28,7 +28,8 @@ PROBES = ["same_bytes_other_dtype", "same_bytes_other_length", "strided_argument
           "evicted_then_recalled", "result_mutated", "result_readonly", "file_modified_same_size", "file_modified_other_size",
           "contour_evicted_recomputed", "child_scalar_read", "basin_proxy_read", "h5_scalar_read", "interleaved_functions", "layout_or_shape_variant_2d", "first_access_with_dtype",
           "refilter_same_count", "grandchild_read_after_refilter", "tuple_argument",
-          "contour_of_invalid_mask_requested", "file_replaced_keeping_mtime"]
+          "contour_of_invalid_mask_requested", "file_replaced_keeping_mtime",
+          "decoy_contour_list_with_same_first_mask", "decoy_dataset_with_same_first_feature"]
 COMPONENTS = {"real": ["dclab.cached.Cache", "dclab.kde_methods (kde_histogram, kde_gauss, kde_multivariate)", "dclab.downsampling.downsample_grid (compiled)",
                        "dclab.util.hashfile / file_monitoring_lru_cache", "dclab.features.contour.LazyContourList",
                        "H5ScalarEvent / ChildScalar / BasinProxyFeature caches", "real files and os.stat on tmpfs"],
@@ -49,7 +50,8 @@ def plan(tier):
 def make_trace(seed, tier):
     r = seeds.rng(seed, "plan")
     return {"knobs": {"max_size": r.choice([2, 3, 5, 8, 100]), "max_events": r.choice([1, 2, 3, 5]), "n": r.choice([8, 20, 40]),
-                      "world": r.choice(["memo", "memo", "memo", "files", "dataset", "mixed"]), "bad_mask": r.random() < 0.35},
+                      "world": r.choice(["memo", "memo", "memo", "files", "dataset", "mixed"]), "bad_mask": r.random() < 0.35,
+                      "decoy": r.random() < 0.4, "dict_root": r.random() < 0.4},
             "max_ops": r.choice([12, 40, 80, 120]), "ops": None}
 
 
@@ -130,6 +132,17 @@ class World:
         if k.get("bad_mask"):
             # one event without any mask pixel: its contour computation raises, for the cached list as for a fresh call
             self.masks[5] = False
+        if k.get("decoy"):
+            # another mask stack handled earlier in the process: same first event, other events differ
+            dm = np.array([self.masks[0]] + [gen.blob_mask(rs, 12, 16) for _ in range(7)])
+            decoy = LazyContourList(dm, max_events=k["max_events"])
+            for j in (1, 2, 3, 6, 7, 2):
+                try:
+                    decoy[j]
+                except Exception:
+                    pass
+            self.decoy_lcl = decoy
+            ctx.probe("decoy_contour_list_with_same_first_mask")
         self.lcl = LazyContourList(self.masks, max_events=k["max_events"])
         self.lcl_seen = []
         # datasets
@@ -165,10 +178,27 @@ class World:
                 hw.store_feature("deform", self.truth["deform"][self.bmap.astype(int)])
                 hw.store_basin(basin_name="o", basin_type="file", basin_format="hdf5", basin_locs=[str(po)],
                                basin_feats=["area_um", "bright_avg"], basin_map=self.bmap, verify=False)
-            ds = dclab.new_dataset(po)
             self.sel = rs.random(n) < 0.6
             if not self.sel.any():
                 self.sel[0] = True
+            if self.k.get("dict_root"):
+                # in-memory root; before it, a look-alike (same alphabetically first feature, other features differ) was
+                # filtered the same way and its child read
+                if self.k.get("decoy"):
+                    dd = {f: (v.copy() if f == "area_um" else v[::-1] + 1.0) for f, v in self.truth.items()}
+                    d0 = dclab.new_dataset(dd)
+                    d0.filter.manual[:] = self.sel
+                    d0.apply_filter()
+                    c0 = dclab.new_dataset(d0)
+                    g0 = dclab.new_dataset(c0)
+                    for f in self.truth:
+                        for o in (c0, g0):
+                            o[f].min(), o[f].mean(), np.asarray(o[f][:])
+                    self.decoy_ds = (d0, c0, g0)
+                    self.ctx.probe("decoy_dataset_with_same_first_feature")
+                ds = dclab.new_dataset({f: v.copy() for f, v in self.truth.items()})
+            else:
+                ds = dclab.new_dataset(po)
             ds.filter.manual[:] = self.sel
             ds.apply_filter()
             child = dclab.new_dataset(ds)
